@@ -13,8 +13,9 @@ What is proved here, for ALL inputs (no size bound):
   `count_length_zero_pinned`, `count_repaired`).
 What is a BOUNDED kernel enumeration: `bounded_agree`, `bounded_native_textbook`
 (redundant with the theorems above; kept as an independent cross-check of the definitions).
-The two C++ variants and the Python functions are tied to the model by the correspondence
-check only (harness/corr/c14.py).
+The C++ code (both variants, word level) is the subject of Props/C14Cpp.lean, which proves that it
+computes `bmLength`. The Python functions and the C++ builds are tied to their models by the
+correspondence check (harness/corr/c14.py).
 -/
 import ParanoidModel.Proofs.BM
 import ParanoidModel.Proofs.BMBounded
